@@ -202,7 +202,7 @@ func runTable(cases string, tr *vh.Trace, rs *vh.Out, shard, shards int) {
 				}
 				d, r := take()
 				tr.Emit(vh.Ev{"ev": "new", "w": o.W, "id": fmt.Sprint(wt.id), "idm": int(wt.id % specMod), "hi": int(wt.id >> 32),
-					"wire_idm": int(wr.id % specMod), "wire_tok": wr.tok, "tok": wt.tok, "delivered": d, "resets": r,
+					"wire_idm": int(wr.id % specMod), "wire_eq": uint64(wr.id) == wt.id, "wire_tok": wr.tok, "tok": wt.tok, "delivered": d, "resets": r,
 					"books": mods(xstream.VerifClientStreamIDs(sc))})
 			case "resp":
 				wt := ws[o.W]
